@@ -131,10 +131,74 @@ def _has_method(eng, fullname: str, meth: str) -> bool:
     return ci.lookup(meth) is not None
 
 
+@_ioe
+def _guess_key_folded(ctx, gk) -> Optional[List[str]]:
+    """Fold jwk.guess_key on probe key sets (1 and 3 keys), probe token parts (no kid, a kid, an empty kid) and both values of use_random, with
+    KeySet.pick_random_key / get_by_kid / ensure_kid intercepted: a key set is asked for a random key exactly when the part names no kid and
+    use_random is given - whatever the size of the set - and then the picked key's kid is ensured and written into the part; otherwise the set is
+    asked for the key of exactly the kid the part names; a plain key is returned as it is; anything else is refused with ValueError."""
+    from ..fold import FuncVal, ExtVal, FoldRaise
+    eng = ctx.eng
+    P, F = eng.prog, eng.folder
+    ks, oc, hm = P.cls(KS), P.cls("rfc7518.oct_key:OctKey"), P.cls("rfc7515.model:HeaderMember")
+    keys3 = [Inst(oc, {"dict_value": {"kty": "oct", "kid": x}}) for x in ("a", "b", "c")]
+    problems: List[str] = []
+    F.start_trace()
+    try:
+        for keys in (keys3[:1], keys3[:2], keys3):
+            for hdr in ({"alg": "HS256"}, {"alg": "HS256", "kid": "b"}, {"alg": "HS256", "kid": ""}):
+                for ur in (True, False, None):
+                    calls = []
+                    F.intercepts = {"_keys:KeySet.pick_random_key": lambda b, keys=keys, calls=calls: (calls.append(("pick", b.get("algorithm"))), keys[-1])[1],
+                                    "_keys:KeySet.get_by_kid": lambda b, calls=calls: (calls.append(("get", b.get("kid"))), ExtVal("GOT"))[1],
+                                    "rfc7517.models:BaseKey.ensure_kid": lambda b, calls=calls: (calls.append(("ensure", None)), None)[1]}
+                    obj = F.instantiate(hm, [dict(hdr)], {})
+                    try:
+                        r = F.call(FuncVal(gk, None, None), [Inst(ks, {"keys": list(keys)}), obj] + ([] if ur is None else [ur]), {})
+                    except FoldRaise as ex:
+                        r = "raise " + (getattr(ex, "name", "") or "?")
+                    finally:
+                        F.intercepts = {}
+                    if is_unknown(r):
+                        return None
+                    where = f"set of {len(keys)}, header {hdr!r}, use_random={'default' if ur is None else ur}"
+                    kid = hdr.get("kid")
+                    if not kid and ur:
+                        want_calls = [("pick", "HS256"), ("ensure", None)]
+                        written = (obj.attrs.get("header") or {}).get("kid") if isinstance(obj.attrs.get("header"), dict) else None
+                        written = written if written is not None else (obj.attrs.get("protected") or {}).get("kid")
+                        if calls != want_calls or r is not keys[-1]:
+                            problems.append(f"{where}: expected a random pick (and its kid ensured), folds to calls {calls} and result {r!r}")
+                        elif written != keys[-1].attrs["dict_value"]["kid"]:
+                            problems.append(f"{where}: the picked key's kid is not written into the token part (kid there: {written!r})")
+                    else:
+                        if calls != [("get", kid)] or not (isinstance(r, ExtVal) and r.name == "GOT"):
+                            problems.append(f"{where}: expected get_by_kid({kid!r}), folds to calls {calls} and result {r!r}")
+        # a plain key is handed back; something that is neither is refused
+        obj = F.instantiate(hm, [{"alg": "HS256"}], {})
+        r = F.call(FuncVal(gk, None, None), [keys3[0], obj], {})
+        if r is not keys3[0]:
+            problems.append(f"a plain key is not handed back as it is (folds to {r!r})")
+        try:
+            r = F.call(FuncVal(gk, None, None), [obj, obj], {})
+            problems.append(f"an object that is neither a key nor a key set is not refused (folds to {r!r})")
+        except FoldRaise as ex:
+            if getattr(ex, "name", "") != "ValueError":
+                problems.append(f"an object that is neither a key nor a key set is refused with {getattr(ex, 'name', '?')}, not ValueError")
+    finally:
+        F.intercepts = {}
+        sided = F.one_sided(ignore=("_normalize_key", "__init__", "set_kid", "headers"), ignore_tests=("callable(",))
+    return None if sided else problems
+
+
 def r14_2(ctx, rule: str = "R14.2", within: Optional[Set[FunctionInfo]] = None) -> None:
     eng = ctx.eng
     P = eng.prog
     gk = P.func("jwk:guess_key")
+    folded = _guess_key_folded(ctx, gk)
+    if folded is not None:
+        ctx.check(not folded, rule, gk, gk.node, f"{gk.short} :: selection (folded on probe sets / parts)", "; ".join(folded[:2]),
+                  "pick_random_key iff use_random and no kid (any set size), kid ensured and written back; otherwise get_by_kid(kid)", construct="guess_key selection")
     cfg = cfg_of(gk)
     op = gk.pos_params[1]
     urp = gk.pos_params[2]
